@@ -263,6 +263,17 @@ func (x *Exec) applySpec(sf *SpecFn, st *St, args []*Val, reads map[string]bool,
 		}
 		if f == nil {
 			f = baseFuel
+			if c := x.W.CS.ByKey[sf.Name]; c != nil {
+				for k := range c.Flags {
+					if strings.HasPrefix(k, "fuel:") {
+						n := 0
+						fmt.Sscan(strings.TrimPrefix(k, "fuel:"), &n)
+						for i := 2; i < n && i < 12; i++ {
+							f = mk("SF", SFuel, f)
+						}
+					}
+				}
+			}
 		}
 		ts = append(ts, f)
 	}
